@@ -167,7 +167,7 @@ def extract_vars(statement):
 
     variables = [v for v in variables if v[2] != ""]
 
-    return sorted(list(set(variables)), key=lambda var: var[2])
+    return sorted(list(set(variables)), key=lambda var: (var[2], var[0], var[1]))
 
 
 def func_has_ctx_arg(func):
